@@ -350,6 +350,55 @@ static std::string ukfc(Toks& t) {
     Out o; o.s("ok"); outCorr(o, corr, lik);
     return o.str();
 }
+// successive correct() + getLikelihood() on ONE correction object (members survive between calls):
+//   b_corrseq kind dl dc quat <meas> [sub reduced] n (K mv pv iv)*
+static std::string corrseq(Toks& t) {
+    long kind = t.nat(), dl = t.nat(), dc = t.nat(); bool quat = t.flag();
+    std::unique_ptr<XMeas> m = readMeas(t);
+    long sub = 0; bool reduced = false;
+    if (kind == 2) { sub = t.nat(); reduced = t.flag(); }
+    long n = t.nat();
+    std::vector<long> K(n); std::vector<bool> mv(n), pv(n), iv(n);
+    for (long i = 0; i < n; ++i) { K[i] = t.nat(); mv[i] = t.flag(); pv[i] = t.flag(); iv[i] = t.flag(); }
+    t.done();
+    XMeas* mp = m.get();
+    std::unique_ptr<GaussianCorrection> c;
+    if (kind == 0) c.reset(new UKFCorrection(std::unique_ptr<MeasurementModel>(std::move(m)), 1.0, 2.0, 0.0));
+    else if (kind == 1) c.reset(new UKFCorrection(std::unique_ptr<AdditiveMeasurementModel>(std::move(m)), 1.0, 2.0, 0.0));
+    else c.reset(new SUKFCorrection(std::unique_ptr<AdditiveMeasurementModel>(std::move(m)), 1.0, 2.0, 0.0, sub, reduced));
+    Out o; o.s("ok");
+    for (long i = 0; i < n; ++i) {
+        mp->mvalid = mv[i]; mp->pvalid = pv[i]; mp->ivalid = iv[i];
+        GaussianMixture pred = mkGM(K[i], dl, dc, quat, 0);
+        GaussianMixture corr(K[i], dl, dc, quat);
+        c->correct(pred, corr);
+        std::pair<bool, VectorXd> lik = c->getLikelihood();
+        o.s(std::to_string(corr.components) + ":" + shpT(corr.mean()) + ":" + (lik.first ? "1" : "0") + ":" + std::to_string(lik.second.size()));
+    }
+    return o.str();
+}
+// successive getNoiseSample(n) / motion on n columns on ONE WhiteNoiseAcceleration object: b_wna_seq d k n1 .. nk
+static std::string wna_seq(Toks& t) {
+    long d = t.nat(); std::vector<std::size_t> nums = comps(t); t.done();
+    WhiteNoiseAcceleration m(wdim(d), 1.0, 1.0);
+    Out o; o.s("ok");
+    for (std::size_t n : nums) {
+        MatrixXd s = m.getNoiseSample(n);
+        MatrixXd cur = fillm(2 * d, n), out(2 * d, n);
+        m.motion(cur, out);
+        o.s(shp(s)).s(shp(out));
+    }
+    return o.str();
+}
+// successive getNoiseSample(n) on ONE LinearModel object: b_lm_seq n kc c1..ckc k n1..nk
+static std::string lm_seq(Toks& t) {
+    long n = t.nat(); std::vector<std::size_t> c = comps(t); std::vector<std::size_t> nums = comps(t); t.done();
+    XLinearModel m(std::make_pair(std::size_t(n), c), spd(c.size(), 0.5));
+    Out o; o.s("ok");
+    for (std::size_t k : nums) o.s(shp(m.sample(int(k)).second));
+    return o.str();
+}
+
 struct XLin : public LTIMeasurementModel {
     XLin(const MatrixXd& H, const MatrixXd& R, long ysize) : LTIMeasurementModel(H, R), ysize_(ysize) {}
     bool freeze(const Data&) override { return true; }
@@ -582,6 +631,9 @@ int main() {
         else if (op == "b_utmm") out = utmm(t);
         else if (op == "b_ukfc") out = ukfc(t);
         else if (op == "b_kfc") out = kfc(t);
+        else if (op == "b_corrseq") out = corrseq(t);
+        else if (op == "b_wna_seq") out = wna_seq(t);
+        else if (op == "b_lm_seq") out = lm_seq(t);
         else if (op == "b_gmacc") out = gmacc(t);
         else if (op == "b_psacc") out = psacc(t);
         else if (op == "b_gmaug") out = gmaug(t);
